@@ -6,6 +6,10 @@ def main(line):      # first component of a triple line
     return line.split(' ## ')[0]
 def fields(show):    # 'O a|b|..' -> list, else None
     return show[2:].split('|') if show.startswith('O ') else None
+def vals(show):     # the six component fields without the canonical string
+    f = fields(show); return tuple(f[:6]) if f else show
+def canon(show):
+    f = fields(show); return f[6] if f else None
 def is_parse(c): return c[0] in 'PSX'
 def accepts_all(c): return True
 def kind_of(c): return c.split(' ')[1] if c[0] in 'PSXB' else None
@@ -35,20 +39,29 @@ def c01_project(c, line, is_impl):
         if not c01_project.acc[c]: return None
     return (p[0], p[1])
 def impl_accepts(sel):
-    """projection factory: observable sel(parts of the triple) only for cases the implementation accepts"""
-    state = {}
-    def proj(c, line, is_impl):
-        p = line.split(' ## ')
-        if is_impl:
-            state['ok'] = p[0].startswith('O ')
-            if not state['ok']: return None
-        return sel(c, p)
-    return proj
+    """compare factory: the observable sel(parts of the triple) is compared for the cases that BOTH sides accept.  A case that only the
+    implementation accepts is an acceptance mismatch: it is C05's (and C02's) to report; for this property the theorem does not transfer to that
+    input and the executable oracle alone decides it (counted in the evidence as acceptance_mismatches)."""
+    def cmp(c, a, m):
+        pa = a.split(' ## '); pm = m.split(' ## ')
+        acc = lambda p: (p[-1] if c.startswith('H ') else p[0]).startswith('O ')
+        if not acc(pa): return 'skip'
+        if not acc(pm): return 'mismatch'
+        return sel(c, pa) == sel(c, pm)
+    cmp.obs = lambda c, a: sel(c, a.split(' ## ')) if (a.split(' ## ')[-1] if c.startswith('H ') else a.split(' ## ')[0]).startswith('O ') else None
+    return cmp
+def from_project(proj):
+    def cmp(c, a, m):
+        oa = proj(c, a, True)
+        if oa is None: return 'skip'
+        return oa == proj(c, m, False)
+    cmp.obs = lambda c, a: proj(c, a, True)
+    return cmp
 PROPS['C01'] = dict(
     theorems=['C01_generic_purl', 'C01_typed_purl', 'C01_same_string_G', 'C01_same_string_P'],
     accepts=lambda c: c[0] in 'PS' and kind_of(c) in 'gst',
     gen=lambda tier, rng: (l for l in parse_stream(tier, rng, ('g', 't', 's'), TOK_Q, TOK_T)),
-    project=impl_accepts(lambda c, p: (p[0], p[1])),
+    compare=impl_accepts(lambda c, p: (vals(p[0]), vals(p[1]), canon(p[0]) == canon(p[1]))),
     rule='conformance corpus and mutations of it, exhaustive bounded token language (6 families), random legal spellings of random component tuples; '
          'parse + canonical string + re-parse compared between extracted model and crate for every string the crate accepts',
 )
@@ -72,7 +85,7 @@ PROPS['C07'] = dict(
     theorems=['C07_generic_purl', 'C07_typed_purl'],
     accepts=lambda c: c[0] in 'PS' and kind_of(c) in 'gst',
     gen=lambda tier, rng: (l for g in (c07_exhaustive(tier), parse_stream(tier, rng, ('g', 't', 's'), {'seg': 4, 'sub': 3, 'path': 3}, {'seg': 5, 'sub': 4, 'path': 4}, (10000, 200000), (2000, 30000))) for l in g),
-    project=impl_accepts(c07_sel),
+    compare=impl_accepts(c07_sel),
     rule='exhaustive products of <= 4 (thorough 5) namespace / subpath pieces from {a, empty, ., .., %2e, %2E, .%2e, %2F, %2f, %5C, "b c"}, token language, random spellings, corpus; '
          'namespace and subpath of every accepted string compared between model and crate',
 )
@@ -89,11 +102,18 @@ def chain(*gs):
 Q = lambda tier, a, b: a if tier == 'quick' else b
 
 # ------------------------------------------------------------------ C02
+def c02_compare(c, a, m):
+    # C02 speaks about legal spellings: every S case (expected tuple carried) and every string the model accepts (theorem C02: those are
+    # exactly the legal spellings).  What the model rejects is C05's.
+    ma, mm = main(a), main(m)
+    if c[0] != 'S' and not mm.startswith('O '): return 'skip'
+    return ma == mm
+c02_compare.obs = lambda c, a: main(a)
 PROPS['C02'] = dict(
     accepts=lambda c: c[0] in 'PS' and kind_of(c) in 'gst',
     gen=lambda tier, rng: chain(gens.gen_spell(rng, Q(tier, 60000, 600000), ('g', 't', 's')), gens.gen_corpus(rng, Q(tier, 2000, 30000), ('g', 't')),
                                 gens.gen_tok(Q(tier, {'head': 3, 'path': 3, 'qual': 3, 'sub': 3, 'seg': 3, 'typed': 3}, TOK_T), ('g', 't'))),
-    project=both(lambda c, p: p[0]),
+    compare=c02_compare,
     rule='random component tuples with random legal spellings (case, raw/escaped bytes in either hex case, extra slashes, dot segments, qualifier order, '
          'interleaved empty qualifiers, raw @ ? # left of the separator, checksum entry order and case), expected tuple carried with the case; token language and corpus; '
          'the full parse outcome compared in both directions',
@@ -105,18 +125,18 @@ PROPS['C03'] = dict(
     accepts=lambda c: c[0] in 'PSB',
     gen=lambda tier, rng: chain(gens.gen_byte(pairs=True, kinds=('g',)), gens.gen_byte(pairs=False, kinds=('t', 's', 'b')),
                                 gens.gen_build(rng, Q(tier, 20000, 300000), 1), gens.gen_spell(rng, Q(tier, 20000, 200000), ('g', 't'))),
-    project=impl_accepts(c03_sel), exhaustive=False,
+    compare=impl_accepts(c03_sel), exhaustive=False,
     rule='exhaustive: every ASCII byte and every ASCII pair (plus 2-, 3-, 4-byte scalars) in each of the 5 component positions through the builder; '
          'random builder sequences and parsed spellings; accessors and canonical string compared, and an independent renderer of the documented shape in the oracle',
 )
 # ------------------------------------------------------------------ C04
 def c04_sel(c, p):
-    return p[-1] if c.startswith('H ') else p[0]
+    return vals(p[-1] if c.startswith('H ') else p[0])
 PROPS['C04'] = dict(
     accepts=lambda c: c[0] in 'PSBH',
     gen=lambda tier, rng: chain(parse_stream(tier, rng, ('g', 't', 's'), {'head': 3, 'path': 3, 'qual': 3, 'sub': 3}, {'head': 4, 'path': 4, 'qual': 4, 'sub': 4}, (15000, 200000), (2000, 30000)),
                                 gens.gen_build(rng, Q(tier, 30000, 400000), 1, ('g', 't', 's', 'b', 'o')), gens.gen_shape(rng, Q(tier, 3000, 50000))),
-    project=lambda c, line, is_impl: (lambda p: (p[-1] if c.startswith('H ') else p[0]))(line.split(' ## ')) if True else None,
+    compare=impl_accepts(c04_sel),
     rule='parser streams, builder call sequences for String / Cow borrowed / Cow owned / SmallString / PackageType, and the family of user-written shapes '
          '(3 conversions x 3 type renderings x 29 hook programs); the value handed out compared; invariant evaluated by the oracle on every value',
 )
@@ -135,6 +155,16 @@ def c06_proj(c, line, is_impl):
         outs = line.split('|')[0].split(',')
         return tuple(i for i, o in enumerate(outs) if o == 'PANIC')
     return ('PANIC' in line, '!' in line.split(' ## ')[0][-2:], line.endswith('|P') or '|P|' in line)
+def c06_odd(rng):
+    for s in ['pkgé', 'pk€:npm/n', 'p📦:npm/n', 'é', 'pkg:é', 'pkg:n/é', '€pkg:npm/n', 'pkg\u0301:npm/n', 'pkg:npm/n?é=1', 'pkg:npm/n?k=é#é', 'PKG:npm/n', 'pkg:%', 'pkg:t/%', 'pkg:t/%4', 'pkg:t/n?k=%', 'pkg:t/n#%F']:
+        for k in 'gst': yield f'P {k} {gens.hx(s)}'
+    keys = ['é', 'ключ', 'K', 'ß', 'a\u0301', '']
+    for k in keys:
+        for pre in ['', f'i:{gens.hx("a")}:{gens.hx("1")},', f'i:{gens.hx("a")}:{gens.hx("1")},i:{gens.hx("b")}:{gens.hx("2")},i:{gens.hx("c")}:{gens.hx("3")},']:
+            for op in ['g', 'c', 'r', 'x', 'er', 'ke']:
+                yield f'Q {pre}{op}:{gens.hx(k)}'
+            yield f'Q {pre}i:{gens.hx(k)}:{gens.hx("v")}'
+            yield f'B g {gens.hx("t")} {gens.hx("n")} Q:{gens.hx("a")}:{gens.hx("1")},q:{gens.hx(k)}'
 def c06_long(rng, n):
     base = gens.corpus_strings()
     for i in range(n):
@@ -142,12 +172,24 @@ def c06_long(rng, n):
         big = rng.choice(['a', '/', '%41', 'é', '&k=v', '/..', '%2F', ',a:00', '@', '#', '?']) * rng.choice([1000, 20000, 150000])
         pos = rng.randint(0, len(s))
         yield f'P {rng.choice("gt")} {gens.hx(s[:pos] + big + s[pos:])}'
+def c06_extra(cases, impl, model, run_sharded, HAR, CACHE, pid):
+    here = os.path.dirname(os.path.abspath(__file__))
+    repo = os.environ.get('VERIF_REPO', '/repo')
+    r = subprocess.run(['python3', f'{here}/panic_sites.py', 'check', f'{repo}/purl/src', f'{here}/panic_sites.json'], capture_output=True, text=True)
+    res = dict(panic_sites=None)
+    try:
+        d = json.loads(r.stdout); res['panic_sites'] = dict(total=d['total'], new=len(d['new']), gone=len(d['gone']))
+        if d['new']:
+            res['broken'] = ['panic-site inventory: %d site(s) in the source have no lemma: %s' % (len(d['new']), '; '.join(f"{s['file']}:{s['fn']}: {s['text'][:80]}" for s in d['new'][:4]))]
+    except Exception as e:
+        res['broken'] = [f'panic-site scanner failed: {e} {r.stderr[-300:]}']
+    return res
 PROPS['C06'] = dict(
-    accepts=accepts_all,
+    accepts=accepts_all, extra=c06_extra,
     gen=lambda tier, rng: chain(gens.gen_tok(Q(tier, {'head': 3, 'path': 3, 'qual': 3, 'sub': 3}, TOK_T), ('g', 't')), gens.gen_fault(rng, Q(tier, 10000, 100000)),
                                 gens.gen_corpus(rng, Q(tier, 3000, 50000)), gens.gen_build(rng, Q(tier, 15000, 200000), 1, ('g', 't', 's', 'b', 'o')),
                                 gens.gen_qops(rng, Q(tier, 3000, 50000)), gens.gen_cs(rng, Q(tier, 3000, 50000)), gens.gen_pt(rng, 500, 2), gens.gen_comb(rng, 500),
-                                c06_long(rng, Q(tier, 0, 60))),
+                                c06_odd(rng), c06_long(rng, Q(tier, 0, 60))),
     project=c06_proj,
     rule='every case of every other stream runs under catch_unwind in a build with overflow checks and debug assertions; the observable is where PANIC occurs; '
          'documented panics (Index of an absent key, insert_typed with an invalid KEY, Display of an invalid user type) are predicted by the model',
@@ -171,30 +213,42 @@ def c08_gen(tier, rng):
         for ns in ['', '/', '//', 'a', 'a//b', '/a/']:
             for nm in ['n', 'A_.-b', 'Æǅ', '']:
                 yield f'B t {i} {gens.hx(nm)} S:{gens.hx(ns)}'
-def c08_project():
+def c08_compare_factory():
     st = {}
-    def proj(c, line, is_impl):
-        a = c.split(' ')
-        side = 'i' if is_impl else 'm'
-        m = main(line)
+    def view(side, c, line):
+        """(typed type+name or error class, relation of the typed parse to the type-agnostic parse of the same string)"""
+        a = c.split(' '); m = main(line)
         if a[0] == 'P' and a[1] == 'g':
-            st[side] = (a[-1], m); return 'g'
+            st[side] = (a[-1], m); return None
         f = fields(m)
-        if a[0] == 'B':
-            return (f[0], f[2]) if f else m
-        rel = None
-        g = st.get(side)
+        if a[0] == 'B': return ((f[0], f[2]) if f else m, None)
+        rel = None; g = st.get(side)
         if g and g[0] == a[-1]:
             gf = fields(g[1])
             if f and gf: rel = (f[1], f[3], f[4], f[5]) == (gf[1], gf[3], gf[4], gf[5]) and f[0] == gf[0]
-            elif f and not gf: rel = False
+            elif f and not gf: rel = False                       # typed accepts what the type-agnostic parser refuses
             elif gf and not f: rel = m if m in ('E UnsupportedType', 'E PMissing(namespace)') else False
             else: rel = True
-        return ((f[0], f[2]) if f else ('E' if not m.startswith('E Un') and not m.startswith('E PM') else m), rel)
-    return proj
+        return ((f[0], f[2]) if f else m, rel)
+    def cmp(c, a, m):
+        va = view('i', c, a); vm = view('m', c, m)
+        if va is None: return 'skip'
+        (na, ra), (nm, rm) = va, vm
+        if ra != rm and not (rm is True and ra is True): 
+            # the relation between typed and type-agnostic parse differs from the model's
+            if not (isinstance(nm, str) and nm.startswith('E ') and ra is True): return False
+        acc_a = not isinstance(na, str); acc_m = not isinstance(nm, str)
+        if acc_a and acc_m: return na == nm                       # type and name after the rule
+        if acc_a != acc_m: return 'mismatch' if ra in (True, None) and c[0] != 'B' else False
+        # both refuse: only the typed-specific refusals are C08's
+        special = ('E UnsupportedType', 'E PMissing(namespace)')
+        if (na in special) != (nm in special): return 'mismatch' if c[0] != 'B' else False
+        return na == nm if na in special else True
+    cmp.obs = lambda c, a: None if c.startswith('P g') else main(a)[:200]
+    return cmp
 PROPS['C08'] = dict(
     accepts=lambda c: c[0] in 'PSB' and kind_of(c) == 't',
-    gen=c08_gen, project=c08_project(),
+    gen=c08_gen, compare=c08_compare_factory(),
     rule='names: every string of length <= 4 (thorough 5) over {a A 1 - _ . AE-ligature titlecase-dz}, single scalar values (quick: Latin/Greek/Cyrillic/extended blocks, '
          'all special cases and 3000 random; thorough: all 1.1M) through parser and builder for nuget, pypi, cargo; typed vs type-agnostic parse of the same string; '
          'observable: typed type and name, and whether the other fields equal the type-agnostic ones',
@@ -203,7 +257,7 @@ PROPS['C08'] = dict(
 PROPS['C09'] = dict(
     accepts=lambda c: c[0] == 'B' and kind_of(c) in 'gt',
     gen=lambda tier, rng: chain(gens.gen_build(rng, Q(tier, 60000, 800000), Q(tier, 1, 2), ('g', 't')), gens.gen_byte(pairs=False, kinds=('g', 't'))),
-    project=both(lambda c, p: (p[0], p[1])),
+    project=both(lambda c, p: (vals(p[0]), vals(p[1]))),
     rule='builder call sequences: exhaustive for length <= 1 (thorough 2) over ~330 operations on a universe of 14 field values, 12 keys x 9 values, typed checksums, '
          'direct edits; random sequences of 2-10 calls with arbitrary strings; outcome, accessors, canonical string and its re-parse compared in both directions; '
          'an independent last-write-wins reference in the oracle',
@@ -213,7 +267,7 @@ PROPS['C10'] = dict(
     accepts=lambda c: c[0] in 'PSB',
     gen=lambda tier, rng: chain(parse_stream(tier, rng, ('g', 't', 's'), {'head': 3, 'path': 3, 'qual': 3, 'sub': 3, 'typed': 3}, TOK_T, (15000, 200000), (2000, 30000)),
                                 gens.gen_build(rng, Q(tier, 30000, 400000), 1, ('g', 't', 's', 'b', 'o')), gens.gen_names(rng, 'quick')),
-    project=impl_accepts(lambda c, p: (p[0], p[2])),
+    compare=impl_accepts(lambda c, p: (vals(p[0]), vals(p[2]), canon(p[0]) == canon(p[2]))),
     rule='every PURL produced by the parser and builder streams, for String, SmallString, Cow borrowed/owned and PackageType: value and result of into_builder().build() compared',
 )
 # ------------------------------------------------------------------ C11
@@ -226,11 +280,14 @@ PROPS['C11'] = dict(
          'forward and backward iteration and length compared; BTreeMap reference in the oracle',
 )
 # ------------------------------------------------------------------ C12
-def c12_proj(c, line, is_impl):
-    if c[0] in 'Cc': return line
-    f = fields(main(line))
-    if is_impl and not f: return None
-    return f[4] if f else main(line)
+def c12_compare(c, a, m):
+    if c[0] in 'Cc': return a == m
+    if c[0] == 'Q': return a == m
+    fa, fm = fields(main(a)), fields(main(m))
+    if not fa: return 'skip'
+    if not fm: return 'mismatch'
+    return fa[4] == fm[4]
+c12_compare.obs = lambda c, a: a if c[0] in 'CcQ' else (fields(main(a)) or [None] * 5)[4]
 def c12_purls(rng, n):
     for _ in range(n):
         t = gens.random_tuple(rng)
@@ -246,17 +303,36 @@ def c12_purls(rng, n):
 PROPS['C12'] = dict(
     accepts=lambda c: c[0] in 'CcPSBQ',
     gen=lambda tier, rng: chain(gens.gen_cs(rng, Q(tier, 30000, 400000)), c12_purls(rng, Q(tier, 10000, 100000))),
-    project=c12_proj,
+    compare=c12_compare,
     rule='checksum operation sequences (insert / insert_raw / remove over 15 algorithm spellings incl. case variants, titlecase letters, empty and non-ASCII), texts, '
          'PURLs and builders carrying the same entry set in random order and case; entries, canonical text, parse-back and typed decode compared; '
          'the model fixes no iteration order (theorem over all permutations), each run uses fresh RandomState seeds',
 )
 # ------------------------------------------------------------------ C13
+def c13_gen(tier, rng):
+    for l in chain(parse_stream(tier, rng, ('g',), {'head': 3, 'path': 3, 'qual': 2, 'sub': 2}, TOK_T, (10000, 100000), (2000, 20000))):
+        a = l.split(' ')
+        yield l
+        yield ' '.join([a[0], 's'] + a[2:])
+    for l in gens.gen_build(rng, Q(tier, 20000, 200000), 1, ('g',)):
+        a = l.split(' ')
+        yield l
+        for k in 'sbo': yield ' '.join([a[0], k] + a[2:])
+def c13_compare_factory():
+    st = {}
+    def cmp(c, a, m):
+        k = kind_of(c); sig = ' '.join(c.split(' ')[:1] + c.split(' ')[2:])
+        if k == 'g':
+            st['g'] = (sig, main(a), main(m)); return 'skip'
+        g = st.get('g')
+        if not g or g[0] != sig: return 'skip'
+        return (main(a) == g[1]) == (main(m) == g[2])
+    cmp.obs = lambda c, a: main(a)[:120]
+    return cmp
 PROPS['C13'] = dict(
     accepts=lambda c: c[0] in 'PSB' and kind_of(c) in 'gsbo',
-    gen=lambda tier, rng: chain((l for l in parse_stream(tier, rng, ('g', 's'), {'head': 3, 'path': 3, 'qual': 2, 'sub': 2}, TOK_T, (10000, 100000), (2000, 20000))),
-                                gens.gen_build(rng, Q(tier, 30000, 300000), 1, ('g', 's', 'b', 'o'))),
-    project=both(lambda c, p: p[0]),
+    gen=c13_gen, corpus=False,
+    compare=c13_compare_factory(),
     rule='parser streams for String and SmallString; builder sequences for String, Cow::Borrowed, Cow::Owned, SmallString on arbitrary (also invalid) type strings; '
          'each compared with the one model function, and pairwise with each other by the oracle',
 )
@@ -264,7 +340,7 @@ PROPS['C13'] = dict(
 PROPS['C14'] = dict(
     accepts=lambda c: c[0] == 'H',
     gen=lambda tier, rng: gens.gen_shape(rng, Q(tier, 10000, 200000)),
-    project=whole,
+    project=both(lambda c, p: (p[0], vals(p[1]), canon(p[1]) == '!')),
     rule='family of user-written shapes: conversion {always, never, only "custom"} x type rendering {lower-cased, raw, invalid} x 29 hook programs (fail, clear name, '
          'rewrite namespace/version/subpath, insert empty/valid/malformed qualifiers and checksums, mutate the type, combinations) x 19 parser inputs and builder inputs, '
          'plus random members and spellings; call log (arguments included), result and accessors compared with the model instantiated at the same member',
@@ -296,12 +372,16 @@ PROPS['C16'] = dict(
     accepts=lambda c: c[0] in 'PS' and kind_of(c) in 'gt',
     features=(('serde', '--features serde'),),
     gen=lambda tier, rng: parse_stream(tier, rng, ('g', 't'), {'head': 3, 'path': 3, 'qual': 2, 'sub': 2}, {'head': 4, 'path': 4, 'qual': 3, 'sub': 3}, (10000, 100000), (2000, 20000)),
-    project=impl_accepts(lambda c, p: (p[0], p[1])), extra=serde_extra,
+    compare=impl_accepts(lambda c, p: (vals(p[0]), vals(p[1]), canon(p[0]) == canon(p[1]))), extra=serde_extra,
     rule='the C01 tie (parse, canonical string, re-parse) on the parser streams, plus, in a build with the serde feature, JSON texts of corpus strings and random spellings '
          '(escaped and raw), and non-string JSON values: deserialise = parse, serialise = canonical string, non-strings refused (oracle with serde_json)',
     assumptions=['JSON string escaping by serde_json is trusted; the derive-free impls are checked to be collect_str / visit_str by behaviour only'],
 )
 # ------------------------------------------------------------------ C17
+def c17_compare(c, a, m):
+    # the property relates builds to each other (extra); differences from the model are recorded, they are other properties' business
+    return True if a == m else 'mismatch'
+c17_compare.obs = lambda c, a: a[:160]
 FEATS = (('nodef', '--no-default-features'), ('pt', '--no-default-features --features pt'), ('serde', '--features serde'))
 def c17_extra(cases, impl, model, run_sharded, HAR, CACHE, pid):
     res = dict(programs=4, transcripts={})
@@ -323,7 +403,7 @@ PROPS['C17'] = dict(
     gen=lambda tier, rng: chain(gens.gen_tok(Q(tier, {'head': 3, 'path': 3, 'qual': 3, 'sub': 3}, TOK_T), ('g', 's', 't')), gens.gen_spell(rng, Q(tier, 20000, 200000), ('g', 's', 't')),
                                 gens.gen_fault(rng, Q(tier, 10000, 100000)), gens.gen_build(rng, Q(tier, 20000, 200000), 1, ('g', 's', 'b', 'o', 't')),
                                 gens.gen_qops(rng, Q(tier, 2000, 20000)), gens.gen_cs(rng, Q(tier, 2000, 20000))),
-    project=whole,
+    compare=c17_compare,
     rule='one deterministic stream (token language, seeded spellings, faults, builder, qualifier and checksum sequences) run through the harness built with '
          '{default}, {no features}, {package-type}, {default+serde}; every transcript compared line by line with the default one and with the extracted model '
          '(the typed API only where it exists); error texts are compared through their variants',
@@ -345,6 +425,8 @@ PROPS['C19'] = dict(
          'parser vs builder) for String, SmallString, Cow and PackageType: ==, cmp compared with the model, and ==/hash/cmp/partial_cmp against canonical-string equality in the oracle',
 )
 
+for _pid, _s in PROPS.items():
+    if 'compare' not in _s: _s['compare'] = from_project(_s['project'])
 # theorem names are read from the props files (each Theorem there is followed by Print Assumptions)
 for _pid, _s in PROPS.items():
     _f = os.path.join(os.path.dirname(os.path.abspath(__file__)), '..', 'coq', 'props', _pid + '.v')
